@@ -97,6 +97,8 @@ def check_init():
     for kind, crlf in (('rules', False), ('rules', True), ('csv', False), ('csv', True), ('csv+rules', False)):
         b = budget('csv' if kind == 'csv+rules' else kind, crlf)
         try:
+            if kind in ('csv', 'csv+rules'):
+                b.write('config/merchant_categories.csv.bak', 'Pattern,Merchant,Category,Subcategory\nOLDBACKUP,Old,Old,Old\n')      # an older backup the user kept
             if kind == 'csv+rules':
                 # a legacy CSV next to a hand-written merchants.rules that settings.yaml does not mention yet: init must not touch either
                 b.write('config/merchants.rules', '# my own rules\n' + RULES)
@@ -113,9 +115,12 @@ def check_init():
                     if not after.get(path, b'').startswith(content):
                         O.fail('C20.init.settings_not_prefix_preserved', w, 'settings.yaml may only gain appended lines', after.get(path, b'')[:160])
                 elif path == 'config/merchant_categories.csv' and kind in ('csv', 'csv+rules'):
-                    kept = after.get(path) == content or after.get(path + '.bak') == content
+                    kept = content in after.values()        # in place, or under a backup name
                     if not kept:
                         O.fail('C20.init.csv_rules_lost', w, 'original CSV kept (in place or as .bak)', sorted(after))
+                elif path.endswith('.bak'):
+                    if content not in after.values():
+                        O.fail('C20.init.older_backup_overwritten', dict(w, file=path), 'the older backup keeps its content (in place or under another name)', sorted(after))
                 elif after.get(path) != content:
                     O.fail('C20.init.existing_file_changed', dict(w, file=path), 'unchanged', 'changed or removed')
         finally:
